@@ -2,6 +2,7 @@
 from ..comp import periodic as PE
 from ..comp import coarsebuild as CB
 from ..comp import coarsestorage as CS
+from ..comp import multiper as MP
 
 ID = 'C13'
 THEOREMS = PE.THEOREMS + [
@@ -24,11 +25,21 @@ RULE = ('assets accepting the options (SimpleContract, Contract with takes, Tran
         'oracles: rate constant within each coarse interval, dispatch repeats at the same position of every period within a duration - positions counted by the clock from the begin of the period, '
         'also when the first period began before the grid -, optimal value = value of the fine problem with the equalities added explicitly (averaged data), '
         'and periodic_builds: a periodic asset (no coarse frequency, period boundaries of equal length) whose fine problem with the equalities exists must not raise in its set-up; '
-        'non-trivial = option changes the problem and the value comparison ran; distinct by case hash')
+        'stream "multiper" (comp/multiper.py): SEVERAL assets with options in ONE portfolio - two to four assets of any of the types, each with its OWN '
+        '(periodicity, periodicity_duration, freq): the periodic ones share the periodicity and differ in the duration (none / one / another, also durations that cut periods), '
+        'or share the duration and differ in the periodicity, or both drawn per asset; with some probability a coarse asset and / or an aligned coarse AND periodic asset next to them; '
+        'fine steps 15min .. d, every duration with two or more blocks on the grid where the size allows, assets in drawn order, own windows / takes / price series per asset; '
+        'for 60 % of the cases ANOTHER portfolio is set up on the SAME Timegrid object and the same price data object (before or after): the same assets made afresh with options exchanged, '
+        'a duration added / dropped / replaced, another periodicity, one asset without options, or a part of the assets only; '
+        'per set-up and per asset the oracles periodic_repeats (by the asset\'s OWN duration blocks and positions), coarse_constant_rate (its OWN coarse intervals), '
+        'value_vs_fine_with_equalities against the fine portfolio in which EVERY such asset is replaced by its ordinary version plus its own equalities (own grid object, own float data), '
+        'and periodic_builds (the set-up must not raise when no asset is coarse and the reference exists); '
+        'non-trivial = option changes the problem and the value comparison ran (multiper: two or more of the assets with options dispatch); distinct by case hash')
 ASSUMPTIONS = ['values compared with tolerance 1e-6 relative',
                'forms of the price data limited to those the unchanged code accepts (a list as a storage\'s price, a transport\'s cost series or a limit by name raises TypeError: not generated); a Storage price as column of a frame indexed by time points relies on pandas 2.x indexing a Series by position',
+               'stream multiper stays outside the known deviations by construction (anchored period W only on grids that start on the anchor, coarse steps dividing the horizon, no wacc / varying limits / cost_store on a coarse asset, coarse AND periodic only aligned); every asset is classified all the same (facts kind / kinds)',
                'periodic_builds judges a raising set-up only for periodicity without freq and equally spaced period boundaries (unequal ones are rejected by the code on purpose); other raising set-ups are counted as a feature, not judged']
-EXPLANATION = 'generic merge_columns theorem + proof that the literal loop of __make_periodic__ is such a merge (aligned case) + weights of the minor-grid extension; correspondence on recorded calls; fine-plus-equalities oracle (also for windows strictly inside the horizon, where the averaged price of the first / last coarse interval must not see the steps outside; the averaged price is that of the NUMBERS given, whatever the form - integer array, list, Series, frame - in which they are handed in)'
+EXPLANATION = 'generic merge_columns theorem + proof that the literal loop of __make_periodic__ is such a merge (aligned case) + weights of the minor-grid extension; correspondence on recorded calls; fine-plus-equalities oracle (also for windows strictly inside the horizon, where the averaged price of the first / last coarse interval must not see the steps outside; the averaged price is that of the NUMBERS given, whatever the form - integer array, list, Series, frame - in which they are handed in); the statement is per ASSET: in a portfolio with several periodic / coarse assets, and on a grid object used for more than one set-up, each asset is judged against the fine problem with its own equalities (nothing the package keeps per grid object or per portfolio may carry one asset\'s periods, durations or coarse steps over to another)'
 
 
 def scenarios(seed, tier):
@@ -46,9 +57,14 @@ def scenarios(seed, tier):
     for i in range(n // 3):
         c = CS.gen_case(random.Random(rnd2.getrandbits(48)), malformed=(i % 5 == 4))
         yield 'cs%d' % i, {'_stream': 'coarsestorage', 'case': c, 'seed': rnd2.getrandbits(32)}
+    # several assets with their own periodicity / duration / coarse frequency in one portfolio, several set-ups on one grid object
+    # (comp/multiper.py): every asset judged by its own fine-plus-equalities reference
+    yield from MP.cases(seed, n // 4)
 
 
 def run_case(case, drv):
+    if isinstance(case, dict) and case.get('_stream') == MP.STREAM:
+        return MP.run_case(case, drv)
     if isinstance(case, dict) and case.get('_stream') == 'coarsebuild':
         import random
         rec = CB.run_case(case['case'], drv, random.Random(case['seed']))
